@@ -224,6 +224,42 @@ sys.exit(0 if again is conf else 1)
     rp = dict(kind='C17', reproduced=p.returncode == 1, tried=[dict(out=p.stdout.strip()[:200])], detail=f'{confs.get(opt, "BeartypeConf()")}: BeartypeConf(**conf.kwargs) -> {p.stdout.strip()}')
     return dict(replay=rp, replay_script=src if p.returncode == 1 else None)
 
+COPY_SRC = """
+import copy, pickle, sys
+from beartype import BeartypeConf, BeartypeStrategy, FrozenDict
+DEFAULTS = {k: getattr(BeartypeConf(), k) for k in ('is_debug', 'strategy', 'is_pep484_tower', 'hint_overrides', 'violation_type', 'claw_is_pep526', 'is_color')}
+CONFS = {'debug_on': dict(is_debug=True, strategy=BeartypeStrategy.On), 'tower': dict(is_pep484_tower=True), 'override': dict(hint_overrides=FrozenDict({int: str})),
+         'violation': dict(violation_type=ValueError), 'claw': dict(claw_is_pep526=False)}
+bad = []
+for name, kw in CONFS.items():
+    for how, fn in (('copy.copy', copy.copy), ('copy.deepcopy', copy.deepcopy), ('pickle', lambda c: pickle.loads(pickle.dumps(c)))):
+        c = BeartypeConf(**kw)
+        try: d = fn(c)
+        except Exception as e: bad.append((name, how, 'raised ' + type(e).__name__ + ': ' + str(e)[:80])); continue
+        if d != c: bad.append((name, how, 'the copy is not equal to the original'))
+        now = {k: getattr(BeartypeConf(), k) for k in DEFAULTS}
+        changed = sorted(k for k in DEFAULTS if now[k] != DEFAULTS[k])
+        if changed: bad.append((name, how, f'BeartypeConf() now reads back {changed} = {[now[k] for k in changed]!r} (the default configuration was overwritten)'))
+        for k, v in kw.items():
+            if getattr(BeartypeConf(**kw), k) != v and k != 'hint_overrides': bad.append((name, how, f'BeartypeConf(**kw).{k} no longer reads back as passed'))
+        if bad: break
+    if bad: break
+print(bad)
+sys.exit(1 if bad else 0)
+"""
+def copies(rep):
+    """bounded history (NOT counted as proved; run in its own interpreter): copying or pickling a configuration never changes what any
+    BeartypeConf(...) call returns or reads back afterwards"""
+    import subprocess, sys, os
+    from pyvc import REPO
+    env = dict(os.environ); env['PYTHONPATH'] = REPO
+    p = subprocess.run([sys.executable, '-c', COPY_SRC], capture_output=True, text=True, timeout=120, env=env, cwd='/')
+    if p.returncode not in (0, 1) or (p.returncode == 1 and not p.stdout.strip().startswith('[')): rep.error('C17 copies harness: ' + (p.stdout + p.stderr)[-600:]); return
+    if p.returncode == 1:
+        rep.add('C17.history.copy_or_pickle_leaves_configurations_alone', 'refuted', backend='runtime-contract', where=p.stdout.strip()[-400:], solver_output='bounded run-time contract in a fresh interpreter (not a proof)',
+                replay=dict(reproduced=True, detail=p.stdout.strip()[-400:]), replay_script=f"import subprocess\nenv = dict(os.environ); env['PYTHONPATH'] = {REPO!r}\np = subprocess.run([sys.executable, '-c', {COPY_SRC!r}], env=env, cwd='/')\nsys.exit(p.returncode)\n")
+    rep.bounded.append(dict(kind='copy / deepcopy / pickle of configurations, then read-back of BeartypeConf() and BeartypeConf(**kw) (bounded stand-in, NOT counted as proved)', scenarios=15, failing=int(p.returncode == 1)))
+
 def main(tier, seed):
     rep = report.Report('C17', tier, seed, 'proof', f'./check C17 --tier {tier}')
     try:
@@ -231,6 +267,8 @@ def main(tier, seed):
         rep.dropped += sorted(ex.dropped)
     except Exception:
         rep.error('C17: ' + traceback.format_exc()[-2000:])
+    try: copies(rep)
+    except Exception: rep.error('C17 copies: ' + traceback.format_exc()[-1500:])
     files = ['beartype/_conf/confmain.py', 'beartype/_conf/conftest.py', 'beartype/_conf/_confoverrides.py', 'beartype/_conf/_confget.py']
     rep.functions = ['beartype/_conf/confmain.py:BeartypeConf.__new__', 'beartype/_conf/confmain.py:BeartypeConf.__eq__', 'beartype/_conf/confmain.py:BeartypeConf.__hash__',
                      'beartype/_conf/conftest.py:default_conf_kwargs (inlined)', 'beartype/_conf/conftest.py:die_if_conf_kwargs_invalid (inlined)', 'beartype/_conf/conftest.py:sanify_conf_kwargs (inlined)',
